@@ -23,10 +23,10 @@
 (* (check-then-act across the lock); TLC refutes OncePerHeight for it, which is   *)
 (* how the check knows that the forced schedules below can tell the two apart.    *)
 (*                                                                               *)
-(* Forced = FALSE: free interleaving of all steps, any waiter may win the mutex   *)
+(* mode = "free": free interleaving of all steps, any waiter may win the mutex    *)
 (* (Go's mutex lets arrivals barge) - the invariants are checked on this.          *)
-(* Forced = TRUE: the schedules that can be forced on the real objects without a  *)
-(* hook in /repo. The controller's commands are the only choices:                 *)
+(* mode = "forced": the schedules that can be forced on the real objects without  *)
+(* a hook in /repo. The controller's commands are the only choices:               *)
 (*   Start(c)   start call c in its own goroutine                                 *)
 (*   Open(f)    open the gate of proposal f (the stub writer's Manifest blocks on *)
 (*              it, i.e. the processor "is still processing")                      *)
@@ -35,134 +35,162 @@
 (* arrival order. `hist` records the commands (">P.P1", ">O.P1") and what each     *)
 (* one brings about until the system is quiet again ("S.P1.1.P1=saved",           *)
 (* "W.P1.1.P1" = BlockWriter.Save of P1's block, height 1, majority P1).           *)
-(* check/props/c11.py takes every maximal `hist` from TLC's dump, the harness     *)
-(* forces it on the real ProposalProcessors (harness/internal/c11, mode force)    *)
-(* and the writer's Save log is judged against the statement.                     *)
+(* EmitSched prints every maximal `hist`; check/props/c11.py hands them to the    *)
+(* harness, which forces each on the real ProposalProcessors (harness/internal/   *)
+(* c11/force.go); the writer's Save log is judged against the statement and the   *)
+(* returns are compared with `hist` (model fidelity, not a verdict).              *)
+(* (mode is a variable chosen at Init so that one TLC run covers both.)           *)
 EXTENDS BlockSave
 
 CONSTANTS Calls,            \* calls the controller may start, each at most once: [k, f, ah, nb]
           MaxCalls,         \* ... at most this many per schedule
           CheckUnderLock,   \* TRUE = the pinned code
-          Forced
+          GateSave,         \* TRUE: the controller also holds BlockWriter.Save (the mutex is held meanwhile)
+          Modes             \* subset of {"free", "forced"}
 
-VARIABLES pc,       \* call -> "idle" | "check" | "lock" | "wait" | "crit" | "gate" | "run" | "done"
-          holder,   \* the call that owns ProposalProcessors.l, or NoCall
-          lockq,    \* calls blocked in l.Lock(), in arrival order
-          seen,     \* call -> previousSaved as read by the lock-free check of Save
-          hist      \* Forced only: commands and their consequences
-lvars == <<vars, pc, holder, lockq, seen, hist>>
-
-NoCall == [k |-> "-", f |-> "-", ah |-> 0, nb |-> "-"]
-
+(* a call is known by its name: "P.P1" = Process(P1), "S.P1.1.P2" = Save(P1, ACCEPT voteproof of height 1 for *)
+(* the block of P2), "C.1" = Cancel                                                                         *)
 Nm(c) == CASE c.k = "P" -> "P." \o c.f
            [] c.k = "S" -> "S." \o c.f \o "." \o ToString(c.ah) \o "." \o c.nb
            [] OTHER -> "C." \o c.f
-Note(ss) == hist' = IF Forced THEN hist \o ss ELSE hist     \* a string: entries separated by blanks
-Avp(c) == [h |-> c.ah, nb |-> c.nb]
+Names == {Nm(c) : c \in Calls}
+Rec == [n \in Names |-> CHOOSE c \in Calls : Nm(c) = n]
+Prop == [n \in Names |-> IF Rec[n].k = "P" THEN ProposalOf(Rec[n].f) ELSE [f |-> "-", h |-> 0, beh |-> "-"]]
+
+VARIABLES pc,       \* call -> "idle" | "check" | "lock" | "wait" | "crit" | "gate" | "run" | "wgate" | "wrun" | "done"
+          holder,   \* the call that owns ProposalProcessors.l, or NoCall
+          lockq,    \* calls blocked in l.Lock(), in arrival order
+          seen,     \* call -> previousSaved as read by the lock-free check of Save
+          started,  \* number of calls started
+          hist,     \* forced only: commands and their consequences (a string, entries separated by blanks)
+          mode
+lvars == <<vars, pc, holder, lockq, seen, started, hist, mode>>
+Forced == mode = "forced"
+NoCall == "-"
+
+Note(ss) == hist' = IF Forced THEN hist \o ss ELSE hist
 Release == holder' = NoCall
-Goto(c, l) == pc' = [pc EXCEPT ![c] = l]
+Goto(n, l) == pc' = [pc EXCEPT ![n] = l]
 
 (* nothing can move without the controller *)
-Quiet == \A c \in Calls : \/ pc[c] \in {"idle", "done", "gate"}
-                          \/ pc[c] = "wait" /\ holder # NoCall
+Quiet == \A n \in Names : \/ pc[n] \in {"idle", "done", "gate", "wgate"}
+                          \/ pc[n] = "wait" /\ holder # NoCall
 MayCommand == Forced => Quiet
 
 (* ---- controller ---- *)
-Start(c) == /\ MayCommand
-            /\ pc[c] = "idle"
-            /\ Cardinality({d \in Calls : pc[d] # "idle"}) < MaxCalls
-            /\ Goto(c, IF c.k = "S" THEN "check" ELSE "lock")
-            /\ Note(" >" \o Nm(c))
+Start(n) == /\ pc[n] = "idle"
+            /\ started < MaxCalls
+            /\ MayCommand
+            /\ started' = started + 1
+            /\ Goto(n, IF Rec[n].k = "S" THEN "check" ELSE "lock")
+            /\ Note(" >" \o n)
             /\ UNCHANGED <<vars, holder, lockq, seen>>
-Open(f) == /\ MayCommand
-           /\ \E c \in Calls : pc[c] = "gate" /\ c.f = f /\ Goto(c, "run")
-           /\ Note(" >O." \o f)
-           /\ UNCHANGED <<vars, holder, lockq, seen>>
+Open(n) == /\ pc[n] = "gate"
+           /\ MayCommand
+           /\ Goto(n, "run")
+           /\ Note(" >O." \o Rec[n].f)
+           /\ UNCHANGED <<vars, holder, lockq, seen, started>>
 
 (* ---- the mutex ---- *)
-Enqueue(c) == /\ pc[c] = "lock"
-              /\ lockq' = Append(lockq, c)
-              /\ Goto(c, "wait")
-              /\ UNCHANGED <<vars, holder, seen, hist>>
-Acquire(c) == /\ pc[c] = "wait" /\ holder = NoCall
-              /\ Forced => c = Head(lockq)
-              /\ holder' = c
-              /\ lockq' = SelectSeq(lockq, LAMBDA d : d # c)
-              /\ Goto(c, "crit")
-              /\ UNCHANGED <<vars, seen, hist>>
+Enqueue(n) == /\ pc[n] = "lock"
+              /\ lockq' = Append(lockq, n)
+              /\ Goto(n, "wait")
+              /\ UNCHANGED <<vars, holder, seen, started, hist>>
+Acquire(n) == /\ pc[n] = "wait" /\ holder = NoCall
+              /\ Forced => n = Head(lockq)
+              /\ holder' = n
+              /\ lockq' = SelectSeq(lockq, LAMBDA d : d # n)
+              /\ Goto(n, "crit")
+              /\ UNCHANGED <<vars, seen, started, hist>>
 
 (* ---- Save ---- *)
-SaveCheck(c) ==
-  /\ pc[c] = "check" /\ c.k = "S"
-  /\ seen' = [seen EXCEPT ![c] = prevSaved]
-  /\ IF ~CheckUnderLock /\ c.ah <= prevSaved
-       THEN /\ Goto(c, "done") /\ res' = "alreadysaved" /\ Note(" " \o Nm(c) \o "=alreadysaved")   \* refused on the fast path
-       ELSE /\ Goto(c, "lock") /\ UNCHANGED <<res, hist>>
-  /\ UNCHANGED <<cur, prevSaved, wsaves, nops, holder, lockq>>
-SaveAct(c) ==
-  /\ pc[c] = "crit" /\ c.k = "S" /\ holder = c
-  /\ DoSaveWith(IF CheckUnderLock THEN prevSaved ELSE seen[c], c.f, Avp(c))
-  /\ Release /\ Goto(c, "done")
-  /\ Note(IF res' = "saved"
-            THEN " W." \o cur.f \o "." \o ToString(cur.h) \o "." \o c.nb \o " " \o Nm(c) \o "=saved"
-            ELSE " " \o Nm(c) \o "=" \o res')
-  /\ UNCHANGED <<nops, lockq, seen>>
+SaveCheck(n) ==
+  /\ pc[n] = "check"
+  /\ seen' = [seen EXCEPT ![n] = prevSaved]
+  /\ IF ~CheckUnderLock /\ Rec[n].ah <= prevSaved
+       THEN /\ Goto(n, "done") /\ res' = "alreadysaved" /\ Note(" " \o n \o "=alreadysaved")   \* refused on the fast path
+       ELSE /\ Goto(n, "lock") /\ UNCHANGED <<res, hist>>
+  /\ UNCHANGED <<cur, prevSaved, wsaves, nops, holder, lockq, started>>
+SaveAct(n) ==
+  LET c == Rec[n] IN
+  /\ pc[n] = "crit" /\ c.k = "S"
+  /\ DoSaveWith(IF CheckUnderLock THEN prevSaved ELSE seen[n], c.f, [h |-> c.ah, nb |-> c.nb])
+  /\ IF res' = "saved" /\ GateSave
+       THEN /\ Goto(n, "wgate") /\ UNCHANGED holder           \* BlockWriter.Save was called and is parked
+            /\ Note(" W." \o cur.f \o "." \o ToString(cur.h) \o "." \o c.nb)
+       ELSE /\ Release /\ Goto(n, "done")
+            /\ Note(IF res' = "saved"
+                      THEN " W." \o cur.f \o "." \o ToString(cur.h) \o "." \o c.nb \o " " \o n \o "=saved"
+                      ELSE " " \o n \o "=" \o res')
+  /\ UNCHANGED <<nops, lockq, seen, started>>
+OpenW(n) == /\ pc[n] = "wgate"
+            /\ MayCommand
+            /\ Goto(n, "wrun")
+            /\ Note(" >OW." \o Rec[n].f)
+            /\ UNCHANGED <<vars, holder, lockq, seen, started>>
+SaveFinish(n) ==
+  /\ pc[n] = "wrun"
+  /\ res' = "saved"
+  /\ Release /\ Goto(n, "done")
+  /\ Note(" " \o n \o "=saved")
+  /\ UNCHANGED <<cur, prevSaved, wsaves, nops, lockq, seen, started>>
 
 (* ---- Cancel ---- *)
-CancelAct(c) ==
-  /\ pc[c] = "crit" /\ c.k = "C" /\ holder = c
+CancelAct(n) ==
+  /\ pc[n] = "crit" /\ Rec[n].k = "C"
   /\ CancelStep
-  /\ Release /\ Goto(c, "done")
-  /\ Note(" " \o Nm(c) \o "=ok")
-  /\ UNCHANGED <<nops, lockq, seen>>
+  /\ Release /\ Goto(n, "done")
+  /\ Note(" " \o n \o "=ok")
+  /\ UNCHANGED <<nops, lockq, seen, started>>
 
 (* ---- Process: newProcessor under the lock, then the processor runs with the lock held ---- *)
-ProcNew(c) ==
-  LET p == ProposalOf(c.f) IN
-  /\ pc[c] = "crit" /\ c.k = "P" /\ holder = c
+ProcNew(n) ==
+  LET p == Prop[n] IN
+  /\ pc[n] = "crit" /\ Rec[n].k = "P"
   /\ IF cur.f = p.f
        THEN /\ res' = "nil" /\ UNCHANGED cur                                        \* "proposal already processed"
-            /\ Release /\ Goto(c, "done") /\ Note(" " \o Nm(c) \o "=nil")
+            /\ Release /\ Goto(n, "done") /\ Note(" " \o n \o "=nil")
      ELSE IF p.beh = "nofact"
        THEN /\ cur' = IF cur.f # "-" THEN [cur EXCEPT !.st = "failed"] ELSE cur     \* old one cancelled, kept
             /\ res' = "notprocessed"
-            /\ Release /\ Goto(c, "done") /\ Note(" " \o Nm(c) \o "=notprocessed")
+            /\ Release /\ Goto(n, "done") /\ Note(" " \o n \o "=notprocessed")
      ELSE /\ cur' = [f |-> p.f, h |-> p.h, st |-> "running"]
-          /\ Goto(c, "gate")
+          /\ Goto(n, "gate")
           /\ UNCHANGED <<res, holder, hist>>
-  /\ UNCHANGED <<prevSaved, wsaves, nops, lockq, seen>>
-ProcFinish(c) ==
-  LET p == ProposalOf(c.f) IN
-  /\ pc[c] = "run" /\ holder = c
+  /\ UNCHANGED <<prevSaved, wsaves, nops, lockq, seen, started>>
+ProcFinish(n) ==
+  LET p == Prop[n] IN
+  /\ pc[n] = "run"
   /\ cur' = [cur EXCEPT !.st = CASE p.beh = "ok" -> "processed" [] p.beh = "err" -> "failed" [] OTHER -> "unprocessed"]
   /\ res' = CASE p.beh = "ok" -> "manifest" [] p.beh = "err" -> "error" [] OTHER -> "nil"
-  /\ Release /\ Goto(c, "done")
-  /\ Note(" " \o Nm(c) \o "=" \o res')
-  /\ UNCHANGED <<prevSaved, wsaves, nops, lockq, seen>>
+  /\ Release /\ Goto(n, "done")
+  /\ Note(" " \o n \o "=" \o res')
+  /\ UNCHANGED <<prevSaved, wsaves, nops, lockq, seen, started>>
 
 LInit == /\ Init
-         /\ pc = [c \in Calls |-> "idle"]
+         /\ pc = [n \in Names |-> "idle"]
          /\ holder = NoCall /\ lockq = <<>>
-         /\ seen = [c \in Calls |-> -1]
+         /\ seen = [n \in Names |-> -1]
+         /\ started = 0
          /\ hist = ""
-LNext == \/ \E c \in Calls : \/ Start(c) \/ Enqueue(c) \/ Acquire(c)
-                             \/ SaveCheck(c) \/ SaveAct(c) \/ CancelAct(c)
-                             \/ ProcNew(c) \/ ProcFinish(c)
-         \/ \E p \in Props : Open(p.f)
+         /\ mode \in Modes
+LNext == /\ \E n \in Names : \/ Start(n) \/ Open(n) \/ Enqueue(n) \/ Acquire(n)
+                             \/ SaveCheck(n) \/ SaveAct(n) \/ OpenW(n) \/ SaveFinish(n) \/ CancelAct(n)
+                             \/ ProcNew(n) \/ ProcFinish(n)
+         /\ UNCHANGED mode
 LSpec == LInit /\ [][LNext]_lvars
 
 LTypeOK == /\ cur.st \in {"-", "processed", "failed", "unprocessed", "running"}
            /\ prevSaved \in Int
-           /\ holder \in Calls \cup {NoCall}
+           /\ holder \in Names \cup {NoCall}
 (* the mutex: its owner is the one call inside a critical section (a running processor is one) *)
-LockOK == \A c \in Calls : (pc[c] \in {"crit", "gate", "run"}) <=> (holder = c)
+LockOK == \A n \in Names : (pc[n] \in {"crit", "gate", "run", "wgate", "wrun"}) <=> (holder = n)
 (* nobody saves while a processor is still running *)
-RunningHeld == cur.st = "running" => holder # NoCall /\ holder.k = "P" /\ holder.f = cur.f
+RunningHeld == cur.st = "running" => holder # NoCall /\ Rec[holder].k = "P" /\ Rec[holder].f = cur.f
 
-(* ---- the schedules to force: one line per maximal schedule (an INVARIANT of the sched configs) ---- *)
-NStarted == Cardinality({c \in Calls : pc[c] # "idle"})
-Maximal == /\ \A c \in Calls : pc[c] \in {"idle", "done"}
-           /\ NStarted = MaxCalls \/ NStarted = Cardinality(Calls)
+(* ---- the schedules to force: one line per maximal schedule (an INVARIANT of the mc configs) ---- *)
+Maximal == /\ started = MaxCalls \/ started = Cardinality(Calls)
+           /\ \A n \in Names : pc[n] \in {"idle", "done"}
 EmitSched == Forced /\ Maximal => PrintT("SCHED" \o hist)
 
 (* ---- alphabets (names of BlockSave!PropsA: P1, P2 at height 1; P3 ok, P4 failing at height 2; P6 not found) ---- *)
@@ -171,6 +199,8 @@ S(f, ah, nb) == [k |-> "S", f |-> f, ah |-> ah, nb |-> nb]
 C(i) == [k |-> "C", f |-> i, ah |-> 0, nb |-> ""]
 (* two proposals of one height (two rounds), one of the next height, their agreed voteproofs, Cancel *)
 CallsQuick == {P("P1"), P("P2"), P("P3"), S("P1", 1, "P1"), S("P2", 1, "P2"), S("P3", 2, "P3"), C("1")}
+(* the smallest alphabet on which a height check made before the lock shows (BlockSaveLock_stale.cfg) *)
+CallsPair == {P("P1"), P("P2"), S("P1", 1, "P1"), S("P2", 1, "P2")}
 (* + a majority for another block, a failing processor, a proposal that is not found *)
 CallsThorough == CallsQuick \cup {S("P1", 1, "x"), S("P1", 1, "P2"), P("P4"), S("P4", 2, "P4"), P("P6")}
 =============================================================================
